@@ -14,17 +14,18 @@ type value interface{}
 // Val is a 64-bit (or byte / small integer) value: its exact integer value as
 // a polynomial over atoms, and a sound interval.
 type Val struct {
-	p        Poly
-	lo, hi   *big.Int
-	org      *origin
-	atom     *atom // non-nil iff the value is exactly one atom
-	maskGate Poly  // non-nil iff value == gate*(W-1) with gate in {0,1}
-	pos      string
-	site     string
-	name     string
-	used     bool
-	assumed  bool // exactness rests on an unproven side-condition (recorded as issue)
-	shadow   int  // shadow atom id used by the relational bound prover (0 = none)
+	p          Poly
+	lo, hi     *big.Int
+	org        *origin
+	atom       *atom // non-nil iff the value is exactly one atom
+	maskGate   Poly  // non-nil iff value == gate*(W-1) with gate in {0,1}
+	pos        string
+	site       string
+	name       string
+	used       bool
+	onlyStored bool // stored into a local array element and not read or used since
+	assumed    bool // exactness rests on an unproven side-condition (recorded as issue)
+	shadow     int  // shadow atom id used by the relational bound prover (0 = none)
 }
 
 type origin struct {
@@ -246,6 +247,7 @@ func use(vs ...*Val) {
 	for _, v := range vs {
 		if v != nil {
 			v.used = true
+			v.onlyStored = false
 		}
 	}
 }
